@@ -59,6 +59,23 @@ func genNonDecLiteral(t *rapid.T) (string, int) {
 			m = digitsOnly + "." + z1 + digitsOnly + z2
 		}
 	}
+	if rapid.IntRange(0, 7).Draw(t, "pow5") == 0 {
+		// a mantissa rich in factors of five with a matching positive binary exponent: d x 5^v x 2^(v+k) is the short
+		// decimal d x 2^k x 10^v, representable at small precisions although mantissa and exponent are both large
+		d := new(big.Int).SetInt64(int64(rapid.IntRange(1, 99999).Draw(t, "p5d")))
+		v := rapid.IntRange(1, 700).Draw(t, "p5v")
+		if rapid.Bool().Draw(t, "p5small") {
+			v = rapid.IntRange(20, 130).Draw(t, "p5vs")
+		}
+		d.Mul(d, new(big.Int).Exp(big.NewInt(5), big.NewInt(int64(v)), nil))
+		m = d.Text(base)
+		pe := v + rapid.IntRange(-3, 6).Draw(t, "p5k")
+		sign := rapid.SampledFrom([]string{"", "-", "+"}).Draw(t, "sg")
+		if base == 10 {
+			return sign + m + "p" + strconv.Itoa(pe), rapid.SampledFrom([]int{0, 10}).Draw(t, "p5b")
+		}
+		return sign + map[int]string{2: "0b", 8: "0o", 16: "0x"}[base] + m + "p" + strconv.Itoa(pe), 0
+	}
 	exp := ""
 	switch rapid.IntRange(0, 3).Draw(t, "ex") {
 	case 0:
@@ -152,6 +169,29 @@ func genC12(t *rapid.T) C12Case {
 		}
 		c.S = rapid.SampledFrom([]string{"", "-", "+"}).Draw(t, "msign") + map[int]string{2: "0b", 8: "0o"}[base] + m + "e" + strconv.FormatInt(e, 10)
 		c.Base = 0
+		return c
+	}
+	if rapid.IntRange(0, 39).Draw(t, "expfield") == 0 {
+		// exponent fields at the edges of int64 and int32. Expected outcome from the grammar alone: a field that does
+		// not fit an int64 is a syntax-level error; a zero mantissa is zero whatever the (valid) exponent; a non-zero
+		// base-10 literal whose scaled exponent leaves the int32 range is rejected
+		c.Kind = "expfield"
+		c.Entry = rapid.SampledFrom([]string{"parse", "parse", "setstring", "unmarshaltext", "parsedecimal"}).Draw(t, "entry")
+		field := rapid.SampledFrom([]string{"9223372036854775807", "-9223372036854775807", "-9223372036854775808", "9223372036854775808", "-9223372036854775809",
+			"+9223372036854775807", "99999999999999999999", "-99999999999999999999", "4294967296", "-4294967296", "2147483648", "-2147483649", "-2147483648", "2147483647",
+			"-9223372036854775800", "9223372036854775800", "18446744073709551616", "-18446744073709551615", "00000000000000000000001", "-00000000000000000000000000002"}).Draw(t, "field")
+		zero := rapid.Bool().Draw(t, "zeromant")
+		mant := rapid.SampledFrom([]string{"0", "0.0", ".0", "0.", "000", "0.000000000000000000000000"}).Draw(t, "zm")
+		if !zero {
+			mant = rapid.SampledFrom([]string{"1", "0.5", "123.456", "9", ".1", "1000000000000000000000000000000"}).Draw(t, "nzm")
+		}
+		letter := "e"
+		if zero && rapid.IntRange(0, 2).Draw(t, "pletter") == 0 {
+			letter = "p"
+		}
+		sign := rapid.SampledFrom([]string{"", "-", "+"}).Draw(t, "esign")
+		c.S = sign + mant + letter + field
+		c.Base = rapid.SampledFrom([]int{0, 10}).Draw(t, "ebase")
 		return c
 	}
 	switch k := rapid.IntRange(0, 9).Draw(t, "kind"); {
@@ -324,6 +364,47 @@ func checkC12(c C12Case, o *h.Obs) *h.Fail {
 	if c.Kind == "mixed" {
 		return checkC12Mixed(c, o, got, err, wantPrec)
 	}
+	if c.Kind == "expfield" {
+		i := strings.LastIndexAny(c.S, "ep")
+		mant, field := c.S[:i], c.S[i+1:]
+		fv, ok := new(big.Int).SetString(strings.TrimPrefix(field, "+"), 10)
+		if !ok {
+			return h.Failf("bad-case", "exponent field %q", field)
+		}
+		o.NonTrivial()
+		zero := strings.Trim(mant, "+-0.") == ""
+		switch {
+		case !fv.IsInt64():
+			o.Label("expfield:beyond-int64")
+			if err == nil {
+				return h.Failf("acceptance", "%s(%q): exponent field beyond int64 accepted as %v", c.Entry, c.S, got.Val())
+			}
+		case zero:
+			o.Label("expfield:zero-mantissa")
+			if err != nil {
+				return h.Failf("acceptance", "%s(%q, %d): a zero with a valid exponent field rejected: %v", c.Entry, c.S, c.Base, err)
+			}
+			if got.Form != model.Zero || got.Neg != strings.HasPrefix(mant, "-") {
+				return h.Failf("value", "%s(%q) = %v", c.Entry, c.S, got.Val())
+			}
+		default:
+			// base-10 literal with an 'e' exponent: in range iff the scaled exponent fits
+			mv, _, perr := new(big.Float).SetPrec(200).Parse(strings.TrimLeft(mant, "+-"), 10)
+			if perr != nil {
+				return h.Failf("bad-case", "mantissa %q: %v", mant, perr)
+			}
+			var adj int64 // adjusted exponent of the mantissa: value = 0.d x 10^adj
+			fmt.Sscanf(mv.Text('e', 5)[strings.IndexByte(mv.Text('e', 5), 'e')+1:], "%d", &adj)
+			adj++
+			scaled := new(big.Int).Add(fv, big.NewInt(adj))
+			inRange := scaled.IsInt64() && scaled.Int64() >= model.MinExp && scaled.Int64() <= model.MaxExp
+			o.Labelf("expfield:nonzero-inrange=%v", inRange)
+			if inRange != (err == nil) {
+				return h.Failf("acceptance", "%s(%q, %d): scaled exponent %v (in range: %v) but err=%v", c.Entry, c.S, c.Base, scaled, inRange, err)
+			}
+		}
+		return nil
+	}
 	// differential with math/big
 	mag, huge := expMagnitude(c.S)
 	if huge || mag > 10000 || len(c.S) > 5000 {
@@ -333,7 +414,7 @@ func checkC12(c C12Case, o *h.Obs) *h.Fail {
 		}
 		return nil // totality and nil-on-error were checked above
 	}
-	bf, bbase, berr := new(big.Float).SetPrec(uint(4*len(c.S)+64)).Parse(c.S, c.Base)
+	bf, bbase, berr := new(big.Float).SetPrec(uint(8*len(c.S)+128)).Parse(c.S, c.Base)
 	if (berr == nil) != (err == nil) {
 		return h.Failf("acceptance", "%s(%q, %d): decimal err=%v, math/big err=%v", c.Entry, c.S, c.Base, err, berr)
 	}
@@ -446,7 +527,7 @@ func checkC12Mixed(c C12Case, o *h.Obs, got h.Snap, err error, wantPrec uint) *h
 	return nil
 }
 
-const ruleC12 = "rapid-generated inputs of three kinds. (dec) base-10 literals of the documented grammar with the value known by construction: sign, digits split around the point anywhere, leading/trailing zeros, '_' separators in legal positions, e/E exponents over the whole int32 range and beyond, up to 600 (quick) / 3000 (thorough) digits with rounding patterns; through Parse, SetString, ParseDecimal, UnmarshalText and Scan (fmt.Sscan with surrounding blanks); receiver precision 0 or 1..80, six modes. Oracle: literal's exact value rounded once (value, accuracy, precision 34 if it was 0, base 10); scaled exponent outside int32 => error. (any) literals in base 2/8/16 or with p exponents, one- and two-character mutations of valid literals (deleted/inserted/replaced/duplicated characters, misplaced '_'), short strings over the alphabet of number characters, a list of hostile constants: acceptance and detected base must coincide with math/big Float.Parse (compared when the exponent field is <= 10000 in magnitude), the value must be exact when its decimal expansion fits the precision and within 1 ulp of the correctly rounded value otherwise (exact rational taken from math/big at a precision that makes it exact). (mixed) binary/octal mantissas with fractional digits and a decimal e exponent over the whole int32 range and at its ends: value = exact binary mantissa (math/big) x 10^e with the range rule (underflow to a signed zero, overflow to infinity), exact when representable, 1 ulp otherwise; rejection accepted only within 80 of a range end. Always: no panic, err != nil => returned *Decimal is nil, receiver canonical. Non-trivial = an accepted literal that needs rounding, or a rejected string; distinct by case."
+const ruleC12 = "rapid-generated inputs of three kinds. (dec) base-10 literals of the documented grammar with the value known by construction: sign, digits split around the point anywhere, leading/trailing zeros, '_' separators in legal positions, e/E exponents over the whole int32 range and beyond, up to 600 (quick) / 3000 (thorough) digits with rounding patterns; through Parse, SetString, ParseDecimal, UnmarshalText and Scan (fmt.Sscan with surrounding blanks); receiver precision 0 or 1..80, six modes. Oracle: literal's exact value rounded once (value, accuracy, precision 34 if it was 0, base 10); scaled exponent outside int32 => error. (any) literals in base 2/8/16 or with p exponents, one- and two-character mutations of valid literals (deleted/inserted/replaced/duplicated characters, misplaced '_'), short strings over the alphabet of number characters, a list of hostile constants: acceptance and detected base must coincide with math/big Float.Parse (compared when the exponent field is <= 10000 in magnitude), the value must be exact when its decimal expansion fits the precision and within 1 ulp of the correctly rounded value otherwise (exact rational taken from math/big at a precision that makes it exact). (mixed) binary/octal mantissas with fractional digits and a decimal e exponent over the whole int32 range and at its ends: value = exact binary mantissa (math/big) x 10^e with the range rule (underflow to a signed zero, overflow to infinity), exact when representable, 1 ulp otherwise; rejection accepted only within 80 of a range end. (expfield) short mantissas with exponent fields at the edges of int64 and int32 (+-2^63, +-(2^63-1), -2^63-1, 2^64, +-2^32, +-2^31, twenty nines, zero-padded fields): a field that does not fit an int64 must be rejected, a zero mantissa with a valid field (e or p) is a signed zero, a non-zero base-10 literal is accepted exactly when its scaled exponent lies in the int32 range. Always: no panic, err != nil => returned *Decimal is nil, receiver canonical. Non-trivial = an accepted literal that needs rounding, or a rejected string; distinct by case."
 
 var propC12 = &h.Prop[C12Case]{ID: "C12", Rule: ruleC12, Gen: genC12, Check: checkC12, Matchers: map[string]func(C12Case) bool{}}
 
